@@ -666,6 +666,10 @@ class Interp:
         return z3.BoolVal(b) if isinstance(b, bool) else b
 
     def compare(self, op, a, b):
+        if (getattr(a, "__cvec__", False) or getattr(b, "__cvec__", False)) and op in ("Lt", "LtE", "Gt", "GtE", "Eq", "NotEq"):
+            from .models_jax import CVec, cvec_elementwise
+
+            return cvec_elementwise(self, lambda x, y: self.compare(op, x, y), a, b)
         if op in ("Is", "IsNot"):
             if is_z3(a) or is_z3(b):
                 if a is None or b is None:
@@ -863,6 +867,13 @@ class Interp:
         h = self.models.get("attr:" + type(v).__name__ + "." + name)
         if h is not None:
             return h(self, v)
+        if getattr(v, "__cvec__", False):
+            if name == "shape":
+                return (len(v),)
+            if name == "at":
+                from .models_jax import AtProxy
+
+                return AtProxy(v)
         if isinstance(v, (list, dict, tuple, str, set)):
             from .models import container_method
 
@@ -957,6 +968,21 @@ class Interp:
         idx = self.eval(node.slice, env, module)
         from .models_jax import AtProxy
 
+        if isinstance(v, AtProxy) and getattr(v.arr, "__cvec__", False):
+            from .models_jax import CVec
+
+            vec = v.arr
+            i = idx[-1] if isinstance(idx, tuple) else idx
+            ci = self.conc_int(i)
+            if ci is None:
+                raise Unsupported("symbolic index into a concrete-length vector")
+
+            def _set(ip2, val):
+                out = CVec(vec)
+                out[ci] = val
+                return out
+
+            return PyObj("at_index", set=PyFn(_set, "at.set"))
         if isinstance(v, AtProxy):
             arr = v.arr
             return PyObj("at_index",
@@ -1023,6 +1049,8 @@ class Interp:
             if isinstance(k, FmtStr):
                 raise Unsupported("FmtStr dict key")
             if k in v:
+                return v[k]
+            if hasattr(v, "__missing__"):
                 return v[k]
             raise PyRaise("KeyError", (k,), node)
         if isinstance(v, SSeq):
